@@ -465,11 +465,15 @@ func printQuote(c *Ctx) int {
 		if !ok || len(cc.List) != 1 || len(cc.Body) != 1 {
 			return true
 		}
-		b, ok := cc.List[0].(*ast.BinaryExpr)
-		if !ok || b.Op != token.EQL {
-			return true
+		// the label is `r == 'V'` (tag-less switch) or just 'V' (switch on the rune)
+		var lab ast.Expr = cc.List[0]
+		if b, ok := lab.(*ast.BinaryExpr); ok {
+			if b.Op != token.EQL {
+				return true
+			}
+			lab = b.Y
 		}
-		v, err := strconv.Unquote(litText(b.Y))
+		v, err := strconv.Unquote(litText(lab))
 		if err != nil || len(v) != 1 {
 			return true
 		}
@@ -1013,24 +1017,13 @@ func printGreater(c *Ctx) int {
 		c.undecided("anchor:printString", token.NoPos, "ast.printString not found")
 		return 0
 	}
-	// functions of package ast called from printString
+	// functions of package ast that look for the GREATER token, and the functions that (transitively) call them:
+	// the statement printer may consult the detector directly or through a predicate of its own
+	reaches := map[string]bool{}
 	var detector *ast.FuncDecl
-	ast.Inspect(ps.Body, func(nd ast.Node) bool {
-		call, ok := nd.(*ast.CallExpr)
-		if !ok {
-			return true
-		}
-		id, ok := call.Fun.(*ast.Ident)
-		if !ok {
-			return true
-		}
-		f, ok := info.Uses[id].(*types.Func)
-		if !ok || f.Pkg() != ap.Types {
-			return true
-		}
-		fd := c.funcDecl("internal/ast", f.Name())
-		if fd == nil || fd.Body == nil {
-			return true
+	for _, fd := range c.allFuncDecls("internal/ast") {
+		if fd.Body == nil || fd.Recv != nil {
+			continue
 		}
 		mentions := false
 		ast.Inspect(fd.Body, func(m ast.Node) bool {
@@ -1040,10 +1033,41 @@ func printGreater(c *Ctx) int {
 			return true
 		})
 		if mentions {
+			reaches[fd.Name.Name] = true
 			detector = fd
+		}
+	}
+	for changed := true; changed; {
+		changed = false
+		for _, fd := range c.allFuncDecls("internal/ast") {
+			if fd.Body == nil || fd.Recv != nil || reaches[fd.Name.Name] {
+				continue
+			}
+			ast.Inspect(fd.Body, func(m ast.Node) bool {
+				if call, ok := m.(*ast.CallExpr); ok {
+					if id, ok := call.Fun.(*ast.Ident); ok && reaches[id.Name] {
+						if f, ok := info.Uses[id].(*types.Func); ok && f.Pkg() == ap.Types && !reaches[fd.Name.Name] {
+							reaches[fd.Name.Name] = true
+							changed = true
+						}
+					}
+				}
+				return true
+			})
+		}
+	}
+	consults := false
+	ast.Inspect(ps.Body, func(nd ast.Node) bool {
+		if call, ok := nd.(*ast.CallExpr); ok {
+			if id, ok := call.Fun.(*ast.Ident); ok && reaches[id.Name] {
+				consults = true
+			}
 		}
 		return true
 	})
+	if !consults {
+		detector = nil
+	}
 	n++
 	if detector == nil {
 		c.bad("print-greater:detector", ps.Pos(), "the print/printf statement printer never looks for a `>` comparison among its arguments: `print (a > b, c)` is printed as `print a > b, c`, where the > is a redirect")
@@ -1059,8 +1083,10 @@ func printGreater(c *Ctx) int {
 		}
 		callsDet := false
 		ast.Inspect(is.Cond, func(m ast.Node) bool {
-			if call, ok := m.(*ast.CallExpr); ok && isIdent(call.Fun, detector.Name.Name) {
-				callsDet = true
+			if call, ok := m.(*ast.CallExpr); ok {
+				if id, ok := call.Fun.(*ast.Ident); ok && reaches[id.Name] {
+					callsDet = true
+				}
 			}
 			return true
 		})
